@@ -15,25 +15,25 @@ INFO = {
             'model-based stateful property testing with an object-lifetime ledger oracle'),
     'C05': ('exploration', 'Histories under a within-N discipline; per-container flag tracks whether the inline promise still applies; oracle = allocator-request counter, malloc hook, capacity()==N, data() inside the object.', '3/C05',
             'stateful property testing with allocation counters (allocator ledger + sanitizer malloc hook)'),
-    'C06': ('exploration', 'Histories on three instrumented allocator kinds; oracle = pointer->count ledger (exact count on deallocate/reallocate, exactly once, nothing outstanding at the end, reallocate only for trivially relocatable types).', '3/C06',
-            'stateful property testing with an allocation-ledger oracle'),
-    'C07': ('exploration', 'Histories with snapshots of data(), capacity(), element addresses/identities around every operation; oracle = std::vector invalidation rules as predicates.', '3/C07',
+    'C06': ('exploration', 'Generated histories on three instrumented allocator kinds (pointer->count ledger: exact count on deallocate/reallocate, exactly once, nothing outstanding, reallocate only for trivially relocatable types, capacity word == block size after every op), growing calls under allocation failure, and a complete small grid for BasicAllocatorWrapper::reallocate.', '3/C06, 10',
+            'stateful property testing with an allocation-ledger oracle; small exhaustive grid for reallocate'),
+    'C07': ('exploration', 'Generated histories with snapshots of data(), capacity(), element identities around every operation (std::vector invalidation rules as predicates) and the swap2 pair grid for size() <= capacity().', '3/C07, 10',
             'stateful property testing with before/after snapshot predicates'),
     'C03': ('exploration', 'Generated histories over pools of FlatSets (5 comparators x 4 underlying vector types x 4 element kinds) against std::set<int,ModelCmp>: exact element sequence, strict ordering under the set\'s own comparator object, every returned bool/count/position/node compared after each operation.', '3/C03',
             'model-based stateful property testing (std::set reference model)'),
-    'C08': ('exploration', 'Limit probes embedded in generated histories: the container is filled to the neighbourhood of N / size_type max, a growing call sized to exceed it must throw the documented exception type and leave contents, size, capacity, data(), element identities, live-object and block counts unchanged; at() probes.', '3/C08',
-            'property testing with generated limit probes and unchanged-snapshot oracle'),
-    'C10': ('exploration', 'The eight aliasing call forms (argument = reference to an own element) in generated histories, against copy-first-then-call on std::vector.', '3/C10',
-            'model-based property testing of aliasing calls'),
-    'C13': ('exploration', 'swap2 in generated histories (same-type operands in every storage state) against exchanged std::vector models, with ledgers.', '3/C13',
-            'model-based property testing of swap2'),
-    'C14': ('exploration', 'Generated histories with a RELOCATE step (memcpy the container object to fresh storage, poison and free the source) on every container type declaring trivially_relocatable; model and ledgers continue on the copy.', '3/C14',
-            'stateful property testing with injected byte-wise relocation'),
-    'C04': ('exploration', 'Generated histories over pools of SmallSets (N in {1,2,3,4,5,8}, 5 comparators, std::set and FlatSet backings, sibling sets with another N and comparator) against std::set<int,ModelCmp>: contents as sets, membership of every key, booleans, counts, all six comparisons after every operation.', '3/C04',
-            'model-based stateful property testing (std::set reference model)'),
-    'C11': ('exploration', 'The SmallSet histories with erase(pos)/erase(range)/erase-while-iterating weighted up; after every operation forward and reverse walks must visit exactly the model elements once, returned iterators equal end() iff they designate nothing, the standard erase loop must terminate having visited every element once.', '3/C11',
-            'stateful property testing of the iterator contract against a reference model'),
-    'C09': ('fault_enumeration', 'For every scenario of a complete small grid (25 operations x sizes x positions x counts x range kinds x spare/tight capacity x inline/heap) and for rapidcheck-generated larger scenarios, a dry run counts the fault points inside the call and the scenario is re-run once per fault index k with that element construction/copy/assignment or allocator request throwing; basic guarantee always, strong guarantee for the documented operations. Single faults, complete over k.', '3/C09',
+    'C08': ('exploration', 'Complete grid at the limit (FixedCapacityVector N in {1,2,3,7,15}; 8-bit size types; uint16 sampled): 24 growing operations x positions x counts incl. values that overflow the size type arithmetic, at() grid; plus limit probes inside generated histories. Oracle: documented exception type and a byte-for-byte unchanged container (contents, size, capacity, data(), identities, live objects, blocks), follow-up operations.', '3/C08, 10',
+            'bounded-exhaustive grid + property testing with generated limit probes and an unchanged-snapshot oracle'),
+    'C10': ('exploration', 'Complete grid (size x position x source index x count x spare capacity x 10 call forms incl. arguments constructed from a pointer to an element x 6 flavours x 6 element categories) against copy-first-then-call on std::vector; the same calls inside generated histories.', '3/C10, 10',
+            'bounded-exhaustive grid + model-based property testing of aliasing calls'),
+    'C13': ('exploration', 'Every ordered pair of 9 vector flavours x 4 element categories x operand recipes (empty, inline partial, inline exactly full, heap with spare, heap emptied) x sizes incl. 200/255/256/300: exchanged exactly or thrown with both unchanged, never std::terminate; ledgers, follow-up operations; plus same-type swap2 in generated histories.', '3/C13, 10',
+            'bounded-exhaustive pair grid + model-based property testing of swap2'),
+    'C14': ('exploration', 'Generated histories with a RELOCATE step (memcpy the container object to fresh storage, poison and free the source) on every container type declaring trivially_relocatable (vectors, FlatSet, FlatSet-backed SmallSet); a static table checks that no container claims the trait when an element type or comparator is not relocatable.', '3/C14, 10',
+            'stateful property testing with injected byte-wise relocation; static trait table'),
+    'C04': ('exploration', 'Bounded-exhaustive search over the abstract states (content, inline/large, node handle) of a SmallSet for small N and k=N+2 keys with every operation of an alphabet applied from every state, plus generated histories over pools of SmallSets (N up to 8, 5 comparators, std::set and FlatSet backings, siblings of another N/comparator) against std::set<int,ModelCmp>; libFuzzer in the thorough tier.', '3/C04, 10',
+            'bounded-exhaustive state search + model-based stateful property testing (std::set reference model)'),
+    'C11': ('exploration', 'The C04 bounded-exhaustive state search and SmallSet histories with erase(pos)/erase(range)/erase-while-iterating weighted up; after every operation forward and reverse walks must visit exactly the model elements once (operator* and operator->), returned iterators equal end() iff they designate nothing, the standard erase loop terminates having visited every element once.', '3/C11, 10',
+            'bounded-exhaustive state search + stateful property testing of the iterator contract'),
+    'C09': ('fault_enumeration', 'For every scenario of a complete small grid and for generated larger scenarios, a dry run counts the fault points inside the call and the scenario is re-run once per fault index k with that element construction/copy/assignment or allocator request throwing (vectors); generated FlatSet and SmallSet histories with the k-th fault armed, and vector histories with failing allocations. Basic guarantee always, strong guarantee for the documented operations. Single faults, complete over k for the grid.', '3/C09, 10',
             'fault injection enumerated over every throw index, ledger + snapshot oracles'),
     'C12': ('exploration', 'Complete enumeration of contents (all subsets of k keys) x hint positions x values x call forms for 11 comparator/vector/element configurations, metamorphic oracle hinted == plain insertion == std::set; plus hinted insertions inside generated FlatSet histories.', '3/C12',
             'bounded-exhaustive enumeration with a metamorphic oracle'),
